@@ -26,7 +26,8 @@ ALL_INV = ("TypeOK Inv_C08_DeleteAfterAllInitialized Inv_C08_NoDeleteAfterFailur
 WEAK_EXPECT = {"anyInitialized": "Inv_C08_DeleteAfterAllInitialized", "vanishedCountsAsReady": "Inv_C08_DeleteAfterAllInitialized",
                "markBeforeCreate": "Inv_C08_RolledBackWhenQuiet", "noUnmark": "Inv_C08_RolledBackWhenQuiet",
                "noUntaint": "Inv_C08_RolledBackByAction", "noCleanup": "Inv_C08_RolledBackWhenQuiet",
-               "noHasAny": "Inv_C08_SingleCommandPerNode", "unmarkStopsAtMissing": "Inv_C08_RolledBackWhenQuiet"}
+               "noHasAny": "Inv_C08_SingleCommandPerNode", "unmarkStopsAtMissing": "Inv_C08_RolledBackWhenQuiet",
+               "requeueOnRollbackError": "Inv_C08_NoDeleteAfterFailure_Code"}
 
 
 def closed_models(run):
@@ -118,7 +119,7 @@ def model_behaviours(run, rng):
 
 
 def systematic(run, rng):
-    base = [(n, st, None) for n, st in oc.base_paths() + oc.two_command_paths() + oc.cand_vanish_paths()] + oc.round_paths() + oc.extra_paths()
+    base = [(n, st, None) for n, st in oc.base_paths() + oc.two_command_paths() + oc.cand_vanish_paths() + oc.rollback_paths()] + oc.round_paths() + oc.extra_paths()
     probe = [oc.scenario("base:" + n, st, {"kind": "base"}, log_reads=True, nodes_mut=mut) for n, st, mut in base]
     files = oc.record(run, probe, prefix="probe", procs=6)
     calls = {}
@@ -140,8 +141,13 @@ def systematic(run, rng):
             buckets[(path, what.split(":")[-2] if what.count(":") >= 2 and what.split(":")[-2] == "once" else what.split(":")[-1].split("@")[0].split("-")[0])].append(v)
         keys = sorted(buckets)
         rng.shuffle(keys)
-        picked = [rng.choice(buckets[k]) for k in keys][:NVARIANTS[run.tier]]
-        seen = {v[0] for v in picked}
+        must = [v for v in allv if oc.is_rollback_variant(v[0])]     # every fault on every rollback call, always
+        run.extra_cov["rollback_fault_variants"] = len(must)
+        picked, seen = [], set()
+        for v in must + [rng.choice(buckets[k]) for k in keys]:
+            if v[0] not in seen and len(picked) < NVARIANTS[run.tier]:
+                seen.add(v[0])
+                picked.append(v)
         rest = [v for v in allv if v[0] not in seen]
         picked += rng.sample(rest, max(0, min(len(rest), NVARIANTS[run.tier] - len(picked))))
         run.extra_cov["variant_buckets"] = len(keys)
